@@ -826,7 +826,11 @@ func evalBinaryArrayExpr(op parser.Operator, left *arrayVal, right value) (value
 		if repetitions < 0 {
 			return nil, fmt.Errorf("%w: negative count: %s", ErrBadRepetition, right)
 		}
-		if n := len(*left.Elements); n != 0 && repetitions > math.MaxInt32/n {
+		if n := len(*left.Elements); n == 0 {
+			// Repeating the empty array gives the empty array; do not loop
+			// repetitions times (which can be 2^63) for nothing.
+			repetitions = 0
+		} else if repetitions > math.MaxInt32/n {
 			// len*repetitions must not overflow and must stay a valid slice length.
 			return nil, fmt.Errorf("%w: result too large: %s", ErrBadRepetition, right)
 		}
